@@ -84,6 +84,8 @@ class World:
                 addint(0x2100, sub, fl, w); sub += 1
         addint(0x2104, 0, R, 4); addint(0x2104, 1, W, 4); addint(0x2104, 2, R, 2); addint(0x2104, 3, W, 1)
         addint(0x2104, 4, D | R, 4); addint(0x2104, 5, D | W, 2)
+        # entries in the upper half of the index range (network variables, profile area)
+        addint(0xA000, 0, RW, 4); addint(0xA000, 1, R, 2); addint(0xA580, 0, RW, 1); addint(0xFFFF, 0, RW, 4)
         lens = [1, 2, 3, 4, 5, 7, 8, 14, 15, 100] + ([] if small else [rng.choice([255, 256, 300]), rng.choice([888, 889, 890]), 1000])
         for i, ln in enumerate(lens):
             d = gen.rand_nonzero_bytes(rng, ln)
@@ -104,7 +106,9 @@ class World:
                (4, S.ERR["OBJ_INCOMPATIBLE"], S.ERR["OBJ_INCOMPATIBLE"], 0), (4, S.ERR["OBJ_ACC"], S.ERR["OBJ_ACC"], 0),
                (1, S.ERR["TYPE_RD"], S.ERR["TYPE_WR"], 0x06090032), (4, S.ERR["TYPE_RD"], S.ERR["TYPE_WR"], 0x08000021),
                # objects larger than 4 bytes whose type refuses the access (locked by the application)
-               (6, S.ERR["OBJ_READ"], S.ERR["OBJ_WRITE"], 0), (6, 0, S.ERR["OBJ_ACC"], 0), (6, S.ERR["TYPE_RD"], 0, 0)]
+               (6, S.ERR["OBJ_READ"], S.ERR["OBJ_WRITE"], 0), (6, 0, S.ERR["OBJ_ACC"], 0), (6, S.ERR["TYPE_RD"], 0, 0),
+               # ... and which name their own abort code while doing so (only expedited transfers forward it)
+               (6, S.ERR["TYPE_RD"], S.ERR["TYPE_WR"], 0x08000022), (9, 0, S.ERR["TYPE_WR"], 0x06060000)]
         for i, u in enumerate(usr):
             cfg.add(Obj(0x2130, i, RW, "usr", "U", u[0], u[1], u[2], "%x" % u[3], 0x11223344))
             m[(0x2130, i)] = OM(0x2130, i, "usr", RW, usr=u)
